@@ -118,6 +118,18 @@ func c15Ref(s string, trimBefore, trimAfter bool) string {
 	return string(out)
 }
 
+const c15Callee = "/** @param? a */\n{template .u autoescape=\"false\"}\nu{$a ?: ''}\n{/template}\n"
+
+var c15Pre = []struct{ src, out string }{
+	{"{call .u}{param a: 1 /} // c\n{/call}", "u1"},
+	{"{call .u} /* c */ {param a}p{/param} // d\n{/call}", "up"},
+	{"{switch $x} /* c */ {case '|'}s{/switch}", "s"},
+	{"{if $x}i // c\n{/if}", "i"},
+	{"{foreach $i in [1]} /* c */{$i}{/foreach}", "1"},
+	{"{let $y} /*c*/ l{/let}{$y}", "l"},
+	{"{call .u /}", "u"},
+}
+
 // H_textlex: a template body of n characters over {a < > space LF CR / * :} (concrete per path)
 // between neighbours chosen by ctx: 0 between two prints, 1 at the start of the template, 2 at
 // its end. Comment-free text must come out exactly as the line-joining rule says; with comments,
@@ -134,7 +146,7 @@ func H_textlex(n, ctx int) {
 			return // "/**" opens a doc comment: not template text
 		}
 	}
-	var src, run string
+	var src, run, preOut string
 	var prev byte
 	switch ctx {
 	case 0:
@@ -143,6 +155,11 @@ func H_textlex(n, ctx int) {
 		src, run, prev = "{namespace n}\n/** @param x */\n{template .t autoescape=\"false\"}\n"+body+"{$x}\n{/template}\n", "\n"+body, '}'
 	case 2:
 		src, run, prev = "{namespace n}\n/** @param x */\n{template .t autoescape=\"false\"}\n{$x}"+body+"\n{/template}\n", body+"\n", '}'
+	default:
+		// after a command that holds comments of its own (between call params, before a case,
+		// inside a block): they must not influence the text that follows the command
+		src, run, prev = "{namespace n}\n/** @param x */\n{template .t autoescape=\"false\"}\n"+c15Pre[ctx-3].src+body+"{$x}\n{/template}\n"+c15Callee, body, '}'
+		preOut = c15Pre[ctx-3].out
 	}
 	verifObserve("body", body)
 	stripped, closed, openLine := c15Strip3(run, prev)
@@ -176,6 +193,8 @@ func H_textlex(n, ctx int) {
 			want = want + after
 		case 2:
 			want = "|" + want
+		default:
+			want = preOut + want + after
 		}
 		verifAssert(c15NonWS(out) == want, "the non-whitespace characters outside comments are not exactly what is written")
 		return
@@ -188,6 +207,8 @@ func H_textlex(n, ctx int) {
 		want = c15Ref(run, false, false) + "|"
 	case 2:
 		want = "|" + c15Ref(run, false, false)
+	default:
+		want = preOut + c15Ref(run, false, false) + "|"
 	}
 	verifAssert(out == want, "comment-free template text is not normalised by the line-joining rule")
 }
